@@ -4,6 +4,7 @@ mod spec;
 mod p_kmer;
 mod p_min;
 mod p_posmaps;
+mod p_cli;
 mod p_count;
 mod p_reader;
 mod p_degen;
@@ -99,7 +100,8 @@ fn main() {
         "c16" => p_degen::c16(&o),
         "c08" => p_cov::c08(&o),
         "c11" => p_cgr::c11(&o),
-        "c12" => p_cgr::c12(&o),
+        "c12" => { let a = p_cgr::c12(&o); if a.witness.is_some() || o.input.is_some() { a } else { let b = p_cli::c12_cli(&o); Outcome { cases: a.cases + b.cases, witness: b.witness } } }
+        "c15" => p_cli::c15(&o),
         "c14" => p_rows::c14(&o),
         "c18" => p_min::c18(&o),
         other => {
